@@ -283,7 +283,10 @@ def c_div(a, b):
     cb = isinstance(b, Fraction)
     if cb:
         if b == 0:
-            raise ZeroDivisionError("symnum: division by literal zero")
+            # the code divides by an exact zero on this path: a failed side obligation
+            # (floats give inf/nan here); the value itself is arbitrary
+            ENGINE.oblige("div", z3.BoolVal(False), "denominator is literally zero")
+            return ENGINE.fresh("divzero")
         return c_mul(a, 1 / b)
     # symbolic denominator: side obligation b != 0
     ENGINE.oblige("div", b != 0, "denominator != 0")
